@@ -24,7 +24,7 @@ def _insert_shape(f, names_var, index='index'):
   if len(whiles) != 1 or len(ins) != 1:
     return None
   w = whiles[0]
-  if astu.src(w.test) != 'len(%s) < %s' % (names_var, index) or [astu.src(s) for s in w.body] != ['%s.append(None)' % names_var]:
+  if astu.src(w.test) != 'len(%s) < %s' % (names_var, index) or [astu.src(s) for s in w.body if isinstance(s, ast.Expr) and isinstance(s.value, ast.Call)] != ['%s.append(None)' % names_var] or any(isinstance(s, (ast.Break, ast.Return, ast.Continue)) for s in w.body):
     return None
   if astu.src(ins[0].args[0]) != index:
     return None
